@@ -257,8 +257,30 @@ def r3(ctx):
                 probs.append('row not rebuilt')
             else:
                 c = reg.fields.get(cfield if cfield == 'center' else '_vertices')
-                if not (isinstance(c, Obj) and same(c.fields.get('x'), App('col', (Const('X0' if cfield == 'center' else 'X'),)))
-                        and same(c.fields.get('y'), App('col', (Const('Y0' if cfield == 'center' else 'Y'),)))):
+
+                def prefix_of(t, colname):
+                    """the set of cut points if t is the column itself or a prefix slice of it on every path (vertex
+                    vectors may be cut where their padding starts), else None"""
+                    if same(t, App('col', (Const(colname),))):
+                        return {'whole'}
+                    if isinstance(t, Ite):
+                        a_, b_ = prefix_of(t.a, colname), prefix_of(t.b, colname)
+                        return None if a_ is None or b_ is None else a_ | b_
+                    if isinstance(t, App) and t.name == 'slice_of' and len(t.args) == 4:
+                        base_, lo_, hi_, st_ = t.args
+                        none_ = lambda z: isinstance(z, Const) and z.v is None        # noqa: E731
+                        if (none_(lo_) or (is_num(lo_) and lo_ == 0)) and none_(st_):
+                            inner = prefix_of(base_, colname)
+                            return None if inner is None else {show(hi_, 200)}
+                    return None
+                if cfield != 'center' and isinstance(c, Obj):
+                    px, py = prefix_of(c.fields.get('x'), 'X'), prefix_of(c.fields.get('y'), 'Y')
+                    if px is not None and py is not None and px == py:
+                        pass          # vertices are the X/Y vectors, cut at the same place
+                    else:
+                        probs.append(f'{cfield} is rebuilt as {show(c, 120)}, not from the X/Y columns')
+                elif not (isinstance(c, Obj) and same(c.fields.get('x'), App('col', (Const('X0' if cfield == 'center' else 'X'),)))
+                          and same(c.fields.get('y'), App('col', (Const('Y0' if cfield == 'center' else 'Y'),)))):
                     probs.append(f'{cfield} is rebuilt as {show(c, 120)}, not from the X/Y columns')
                 if 'angle' in m.params_of(ci) and not same(reg.fields.get('angle'), App('col', (Const('ROTANG0'),))):
                     probs.append(f'angle is rebuilt as {show(reg.fields.get("angle"), 80)}, not from ROTANG')
@@ -624,7 +646,15 @@ def r10(ctx):
                      'or otherwise converted column can cut names such as "!elliptannulus")')
     for k in ('x', 'y', 'r', 'rotang'):
         v = cols.get(k.upper())
-        ok = isinstance(v, App) and v.name.startswith('call:') and len(v.args) == 1 and same(v.args[0], want_rows(k))
+        def harmless(extra):
+            # further (keyword) arguments of the column builder may depend on the rows' shape names only (e.g. the fill
+            # value for unused vector elements), never on another column's values
+            from ..vg import walk_terms
+            if not (isinstance(extra, Tup) and len(extra.items) == 2 and isinstance(extra.items[0], Const)):
+                return False
+            return all(x.path.startswith('shape') for x in walk_terms(extra.items[1]) if isinstance(x, Obj) and x.cls == 'val')
+        ok = isinstance(v, App) and v.name.startswith('call:') and len(v.args) >= 1 and same(v.args[0], want_rows(k)) \
+            and all(harmless(e_) for e_ in v.args[1:])
         if not ok:
             probs.append(f'column {k.upper()} is {show(v, 120)}, not the padded rows\' {k} values in row order')
     if 'COMPONENT' not in cols:
